@@ -95,8 +95,9 @@ def run(ctx):
                             chosen = [c[1] for c in p.conds if c[0] == V and isinstance(c[1], str)]
                             n_ = nf(newv)
                             prev = ("field", vb, fname)
-                            good = (len(chosen) == 1 and FIELD_OF_VOTE.get(chosen[0]) == fname and n_.atoms.get(prev) == 1
-                                    and n_.atoms.get(W) == 1 and len(n_.atoms) == 2 and n_.const == 0 and not n_.inexact)
+                            want_ = nf(("bin", "add", prev, W))      # compare normal forms, not the spelling of W
+                            good = (len(chosen) == 1 and FIELD_OF_VOTE.get(chosen[0]) == fname and n_ == want_ and n_.atoms.get(prev) == 1
+                                    and not n_.inexact)
                             why = "ballot {weight %s, vote %s=%s} but tally field `%s` becomes %s" % (show(W)[:80], show(V)[:60], chosen, fname, show(newv)[:160])
                         elif len(bw) != 1:
                             why = "%d ballot writes on a tally-changing path" % len(bw)
